@@ -486,3 +486,62 @@ Section ExecProofs.
     cbn [nth]. destruct (apply_conf parse_conf st text) as [st' c]. reflexivity.
   Qed.
 End ExecProofs.
+
+(* what deleting a variable does to the object sets: the variable and exactly the biases that use it disappear *)
+Lemma del_cv_spec n st :
+  (forall c, In c (st_cvs (del_cv n st)) <-> In c (st_cvs st) /\ c <> n) /\
+  (forall b, In b (st_biases (del_cv n st)) <-> In b (st_biases st) /\ ~ In n (snd b)).
+Proof.
+  unfold del_cv. cbn [st_cvs st_biases]. split; intros x; rewrite filter_In, negb_true_iff.
+  - rewrite String.eqb_neq. reflexivity.
+  - rewrite mem_str_false. reflexivity.
+Qed.
+
+Lemma del_bias_spec n st :
+  st_cvs (del_bias n st) = st_cvs st /\
+  (forall b, In b (st_biases (del_bias n st)) <-> In b (st_biases st) /\ fst b <> n).
+Proof.
+  unfold del_bias. cbn [st_cvs st_biases]. split; [reflexivity|]. intros x. rewrite filter_In, negb_true_iff, String.eqb_neq. reflexivity.
+Qed.
+
+(* ================= statements used by Properties_C20.v ================= *)
+Lemma dispatch_total tbl colvars biases words :
+  (exists k e ex, dispatch tbl colvars biases words = Run k e ex /\ runs tbl colvars biases words k e ex) \/
+  (is_error (dispatch tbl colvars biases words) = true /\ ~ exists k e ex, runs tbl colvars biases words k e ex).
+Proof.
+  destruct (dispatch tbl colvars biases words) as [| | | | | |k e ex] eqn:E;
+    try (right; split; [reflexivity | apply dispatch_error_iff; rewrite E; reflexivity]).
+  left. exists k, e, ex. split; [reflexivity | apply dispatch_run_iff; exact E].
+Qed.
+
+Lemma unknown_command_rejected tbl colvars biases main cmd name sub rest :
+  (cmd <> "colvar" -> cmd <> "bias" -> ~ In ("cv_" ++ cmd) (map e_name tbl) ->
+     is_error (dispatch tbl colvars biases (main :: cmd :: rest)) = true) /\
+  (~ In ("colvar_" ++ sub) (map e_name tbl) ->
+     is_error (dispatch tbl colvars biases (main :: "colvar" :: name :: sub :: rest)) = true).
+Proof. split; [apply unknown_module_command_rejected | apply unknown_object_command_rejected]. Qed.
+
+Lemma wrong_argument_count_rejected tbl colvars biases words k e ex :
+  dispatch tbl colvars biases words = Run k e ex ->
+  shift_of k + e_min e <= Z.of_nat (List.length words) <= shift_of k + e_max e.
+Proof. intros H. apply dispatch_run_iff in H. exact (wrong_nargs_rejected _ _ _ _ _ _ _ H). Qed.
+
+Lemma usable_after_any_history tbl parse_conf read_file evs st words :
+  state_wf st = true ->
+  let st' := run_events tbl parse_conf read_file st evs in
+  state_wf st' = true /\
+  ((exists k e ex, dispatch tbl (st_cvs st') (bias_names st') words = Run k e ex) \/
+   (is_error (dispatch tbl (st_cvs st') (bias_names st') words) = true /\
+    exec tbl parse_conf read_file st' words = (st', dispatch tbl (st_cvs st') (bias_names st') words, BErr))).
+Proof.
+  intros H st'.
+  apply state_wf_ok in H. destruct (run_events_then_total tbl parse_conf read_file evs st words H) as [H1 H2].
+  split; [apply state_wf_ok; exact H1 | exact H2].
+Qed.
+
+Lemma delete_effect n st :
+  ((forall c, In c (st_cvs (del_cv n st)) <-> In c (st_cvs st) /\ c <> n) /\
+   (forall b, In b (st_biases (del_cv n st)) <-> In b (st_biases st) /\ ~ In n (snd b))) /\
+  (st_cvs (del_bias n st) = st_cvs st /\
+   (forall b, In b (st_biases (del_bias n st)) <-> In b (st_biases st) /\ fst b <> n)).
+Proof. split; [apply del_cv_spec | apply del_bias_spec]. Qed.
